@@ -13,7 +13,9 @@ RULE = ("Hypothesis-generated shifts tau (positive, negative, non-multiples of d
         "given as floats and intervals. Metamorphic oracle: running (start, f(t)) and (start+tau, f(t-tau)) gives identical "
         "states / fields / correlation values (1e-9) and time axes shifted by exactly tau (few ulp), for Tempo, "
         "MeanFieldTempo, PtTempo+compute_dynamics, compute_dynamics_with_field and compute_correlations. Non-trivial: some "
-        "callable depends on t and tau/dt is not an integer; distinct = distinct canonical JSON.")
+        "callable depends on t and tau/dt is not an integer; distinct = distinct canonical JSON. (guessed-parameters) the "
+        "parameters that tempo_compute(..., parameters=None) guesses and hands to Tempo are the same for (start, f(t)) and "
+        "(start+tau, f(t-tau)).")
 TECHNIQUE = "Hypothesis property-based metamorphic testing (time-origin shift)"
 LEVEL_TEXT = ("Each generated problem is run twice, with the origin shifted and all callables/time arguments shifted accordingly; "
               "every state, field, correlation and time label is compared.")
@@ -125,5 +127,56 @@ def run_case(case):
     return out
 
 
+def _guessed_parameters(case, start, shift):
+    """the parameters tempo_compute(..., parameters=None) hands to Tempo (the computation itself is not run: the Tempo class
+    is replaced by a recorder for the duration of the call)"""
+    import warnings
+    import oqupy
+    import oqupy.tempo as T
+    d, p = case["d"], case["par"]
+    bath = tempogen.build_bath(case["bath"], p, d)[0]
+    system = sysgen.build_system(case["sys"], shift=shift)
+    got = {}
+
+    class Recorder:
+        def __init__(self, system, bath, parameters, initial_state, start_time, *a, **k):
+            got.update(dt=parameters.dt, dkmax=parameters.dkmax, epsrel=parameters.epsrel, start=start_time)
+
+        def compute(self, end_time, progress_type=None):
+            got["end"] = end_time
+            return None
+
+        def get_dynamics(self):
+            return None
+    saved = T.Tempo
+    T.Tempo = Recorder
+    try:
+        with warnings.catch_warnings():
+            warnings.simplefilter("ignore")
+            T.tempo_compute(system, bath, gens.build_dm(case["rho0"]), start, start + 2.0, progress_type="silent")
+    finally:
+        T.Tempo = saved
+    return got
+
+
+def run_guess(case):
+    """the convenience route with guessed parameters: the guess may depend on the interval length and on the system as a
+    function of t - start only"""
+    out = Outcome()
+    tau = case["tau"]
+    t0 = case["t0"]
+    a = _guessed_parameters(case, t0, 0.0)
+    b = _guessed_parameters(case, t0 + tau, tau)
+    out.nontrivial = True
+    out.label("tau-large" if abs(tau) > 100 else "tau-moderate")
+    for key in ("dt", "epsrel"):
+        if not abs(a[key] - b[key]) <= 1e-6 * abs(a[key]):
+            out.fail("guessed-parameters/" + key, f"{key} = {a[key]!r} at start {t0}, {b[key]!r} at start {t0 + tau} (tau={tau})")
+    if a["dkmax"] != b["dkmax"]:
+        out.fail("guessed-parameters/dkmax", f"dkmax = {a['dkmax']} vs {b['dkmax']} (tau={tau})")
+    return out
+
+
 def subs(tier):
-    return [Sub("shift", run_case, strategy=s_case, budget={"quick": 200, "thorough": 2000})]
+    return [Sub("shift", run_case, strategy=s_case, budget={"quick": 200, "thorough": 2000}),
+            Sub("guessed-parameters", run_guess, strategy=s_case, budget={"quick": 96, "thorough": 800})]
